@@ -181,6 +181,14 @@ M = [
     ('C02', 'PGPKey.revoker', 'pgpy.pgp', "        prefs['revocable'] = False\n        return self._sign(self, sig, **prefs)", "        return self._sign(self, sig, **prefs)"),
     ('C02', 'PGPKey.revoker', 'pgpy.pgp', "                                         algorithm=revoker.key_algorithm,\n                                         fingerprint=revoker.fingerprint,", "                                         algorithm=self.key_algorithm,\n                                         fingerprint=revoker.fingerprint,"),
     ('C02', 'PGPKey.revoker[sens', 'pgpy.pgp', "        keyclass = RevocationKeyClass.Normal | (RevocationKeyClass.Sensitive if sensitive else 0x00)", "        keyclass = RevocationKeyClass.Normal"),
+    ('C19', 'PGPKeyring.load', 'pgpy.pgp', "            for ik in _preiter(_key, keys.values()):", "            for ik in [_key]:"),
+    ('C19', 'PGPKeyring.load', 'pgpy.pgp', "                loaded |= {ik.fingerprint} | {isk.fingerprint for isk in ik.subkeys.values()}", "                loaded |= {ik.fingerprint}"),
+    ('C19', 'PGPKeyring.__contains__', 'pgpy.pgp', "            return alias in aliases or alias.replace(' ', '') in aliases", "            return alias in aliases"),
+    ('C19', 'unload[key object in', 'pgpy.pgp', "            if key.is_primary:\n                [ self.unload(sk) for sk in key.subkeys.values() ]", "            pass"),
+    ('C19', 'unload[key object in', 'pgpy.pgp', "for a, p in m.items() if p == pkid ]:", "for a, p in m.items() if p != pkid ]:"),
+    ('C19', 'unload[key object in', 'pgpy.pgp', "                if a in self:\n                    self._sort_alias(a)", "                pass"),
+    ('C19', 'unload[key object in', 'pgpy.pgp', "            [ kd.remove(pkid) for kd in [self._pubkeys, self._privkeys] if pkid in kd ]", "            [ kd.remove(pkid) for kd in [self._privkeys] if pkid in kd ]"),
+    ('C19', 'unload[key object in', 'pgpy.pgp', "            # remove the key\n            self._keys.pop(pkid)", "            # remove the key\n            pass"),
     ('C19', '_add_key', 'pgpy.pgp', "            if pgpkey.parent is None:\n                if pgpkey.is_public:", "            if True:\n                if pgpkey.is_public:"),
     ('C19', '_add_key', 'pgpy.pgp', "            self._add_alias(pgpkey.fingerprint.keyid, pkid)\n", ""),
     ('C19', '_add_key', 'pgpy.pgp', "                if uid.email:\n                    self._add_alias(uid.email, pkid)", "                self._add_alias(uid.email, pkid)"),
